@@ -157,6 +157,7 @@ func init() {
 				Quick:    sc("authFacts", 1, "azFacts", 1, "azRule", 1, "azCheck", 1, "policies", 2),
 				Thorough: sc("authFacts", 1, "authRule", 1, "azFacts", 2, "azRule", 2, "azCheck", 2, "policies", 2, "polMode", 2),
 				Covers:   []string{"compared"}},
+			{Pkg: "biscuit", Func: "VerifC18RefusedAfterFailure", Quick: p("polq", 1), Thorough: p("polq", 1), Covers: []string{"evaluation-failed", "evaluation-succeeded"}},
 			// the snapshot that is loaded is the second one taken from the same authorizer
 			{Pkg: "biscuit", Func: "VerifC18Snapshot",
 				Quick:    sc("authFacts", 1, "azFacts", 1, "azCheck", 1, "policies", 1, "secondSave", 1),
